@@ -246,6 +246,18 @@ namespace jsoncons {
 
         void flatten_and_destroy() noexcept
         {
+            JSONCONS_TRY
+            {
+                flatten_and_destroy_();
+            }
+            JSONCONS_CATCH(...)
+            {
+                // out of memory while flattening, the remaining elements are destroyed recursively
+            }
+        }
+
+        void flatten_and_destroy_()
+        {
             while (!data_.empty())
             {
                 value_type current = std::move(data_.back());
